@@ -1,5 +1,246 @@
-import Smooth.Model.Surface
+/-
+C12 — Equality is structural, an equivalence, and consistent with hashing.
+
+`beq N a b` is the model of `Expression.__eq__`, `hashKey` the tuple the implementation hands to
+Python's `hash`, `HKey.same N` equality of such tuples up to `==` on the numbers in them (what
+CPython's `hash` is trusted to respect: `hash(2) == hash(2.0)`), `pointBeq N` the model of
+`Point.__eq__`.  Everything is generic in the number instance `N`; the only assumption, where one is
+needed, is `EqLaws N` : the number comparison `N.eq` is reflexive, symmetric and transitive — true of
+the reals (`eqLaws_real`) and of the exact-rational instance of the correspondence driver
+(`eqLaws_rational`), where it relates *distinct* carrier elements, as Python's `2 == 2.0` does.
+(IEEE `==` is not reflexive at NaN; no constructor or evaluation of the library produces NaN, C17.)
+
+`StructEq N` (Proofs/Equality.lean) is the specification, written as an inductive relation
+independently of `beq`: same constructor, children pairwise related in the same order (lists: same
+length), value/base related by `N.eq`, `n` and names equal, the per-object flags not looked at.
+-/
+import Smooth.Proofs.Equality
+
 namespace Smooth
-/-- placeholder while the property file is being written -/
-theorem C12_placeholder : (1 : Nat) = 1 := rfl
+variable {α : Type}
+open Expr
+
+/-! ### the assumption is satisfiable -/
+
+/-- real-number comparison is an equivalence -/
+theorem eqLaws_real : EqLaws realNum := realNum_eqLaws
+
+/-- so is the comparison of the exact-rational instance, which ignores part of the carrier -/
+theorem eqLaws_rational : EqLaws qeNum := qeNum_eqLaws
+
+/-! ### equality is structural -/
+
+/-- **C12 (structure).**  Two expressions are equal exactly when they are the same constructor applied
+to pairwise equal arguments in the same order with numerically equal parameters. -/
+theorem beq_iff_structEq {N : Num α} (h : EqLaws N) (a b : Expr α) :
+    beq N a b = true ↔ StructEq N a b :=
+  beq_iff_structEq_of_symm h.symm a b
+
+/-- Without any assumption on `N.eq`: the implementation compares the parameters right-to-left
+(`other.value == self.value`), so `beq N a b` is `StructEq N b a`. -/
+theorem beq_iff_structEq_swapped (N : Num α) (a b : Expr α) :
+    beq N a b = true ↔ StructEq N b a :=
+  beq_iff_structEq_flip N a b
+
+theorem beqList_iff_structEqList {N : Num α} (h : EqLaws N) (as bs : List (Expr α)) :
+    beqList N as bs = true ↔ StructEqList N as bs :=
+  beqList_iff_structEqList_of_symm h.symm as bs
+
+/-- argument lists: same length and `beq` position by position -/
+theorem beqList_iff_pairwise (N : Num α) (as bs : List (Expr α)) :
+    beqList N as bs = true ↔ List.Forall₂ (fun a b => beq N a b = true) as bs :=
+  beqList_iff_forall₂ N as bs
+
+/-- `StructEqList` is the position-by-position lifting of `StructEq` -/
+theorem structEqList_iff_pairwise (N : Num α) (as bs : List (Expr α)) :
+    StructEqList N as bs ↔ List.Forall₂ (StructEq N) as bs :=
+  structEqList_iff_forall₂ N as bs
+
+/-- the memo flags and the object identity play no role -/
+theorem beq_ignores_flags (N : Num α) (g g' : Flags) (a b : Expr α) :
+    beq N (a.setFlags g) (b.setFlags g') = beq N a b := by
+  rw [beq_setFlags_left, beq_setFlags_right]
+
+/-! ### equality is an equivalence -/
+
+theorem beq_refl {N : Num α} (h : EqLaws N) (a : Expr α) : beq N a a = true := beq_refl' h a
+
+theorem beq_symm {N : Num α} (h : EqLaws N) {a b : Expr α} (hab : beq N a b = true) :
+    beq N b a = true := beq_symm' h hab
+
+theorem beq_trans {N : Num α} (h : EqLaws N) {a b c : Expr α} (hab : beq N a b = true)
+    (hbc : beq N b c = true) : beq N a c = true := beq_trans' h hab hbc
+
+theorem beqList_refl {N : Num α} (h : EqLaws N) (as : List (Expr α)) : beqList N as as = true :=
+  beqList_refl' h as
+
+theorem beqList_symm {N : Num α} (h : EqLaws N) {as bs : List (Expr α)}
+    (hab : beqList N as bs = true) : beqList N bs as = true := beqList_symm' h hab
+
+theorem beqList_trans {N : Num α} (h : EqLaws N) {as bs cs : List (Expr α)}
+    (hab : beqList N as bs = true) (hbc : beqList N bs cs = true) : beqList N as cs = true :=
+  beqList_trans' h hab hbc
+
+/-! ### what equality tells apart (no assumption on `N`) -/
+
+/-- different constructors are never equal -/
+theorem beq_of_ctor_ne (N : Num α) {a b : Expr α} (h : a.ctor ≠ b.ctor) : beq N a b = false := by
+  cases hb : beq N a b
+  · rfl
+  · exact absurd (beq_ctor_eq hb) h
+
+/-- constants: exactly numeric equality of the values (so `2` and `2.0` agree) -/
+theorem beq_const (N : Num α) (f g : Flags) (v w : α) :
+    beq N (.const f v) (.const g w) = N.eq w v := by
+  simp [beq]
+
+/-- variables: exactly equality of the names -/
+theorem beq_var (N : Num α) (f g : Flags) (x y : String) :
+    beq N (.var f x : Expr α) (.var g y) = true ↔ x = y := by
+  simp [beq]
+
+/-- different `n` ⇒ different powers -/
+theorem beq_npow_n (N : Num α) {f g : Flags} {a b : Expr α} {n m : Nat}
+    (h : beq N (.npow f a n) (.npow g b m) = true) : n = m := by
+  simp [beq] at h; exact h.2
+
+/-- different `n` ⇒ different roots -/
+theorem beq_nroot_n (N : Num α) {f g : Flags} {a b : Expr α} {n m : Nat}
+    (h : beq N (.nroot f a n) (.nroot g b m) = true) : n = m := by
+  simp [beq] at h; exact h.2
+
+/-- different base ⇒ different exponentials -/
+theorem beq_exp_base (N : Num α) {f g : Flags} {a b : Expr α} {x y : α}
+    (h : beq N (.exp f a x) (.exp g b y) = true) : N.eq y x = true := by
+  simp [beq] at h; exact h.2
+
+/-- different base ⇒ different logarithms -/
+theorem beq_log_base (N : Num α) {f g : Flags} {a b : Expr α} {x y : α}
+    (h : beq N (.log f a x) (.log g b y) = true) : N.eq y x = true := by
+  simp [beq] at h; exact h.2
+
+/-- sums of different arity are different -/
+theorem beq_add_arity (N : Num α) {f g : Flags} {as bs : List (Expr α)}
+    (h : as.length ≠ bs.length) : beq N (.add f as) (.add g bs) = false := by
+  cases hb : beq N (.add f as) (.add g bs)
+  · rfl
+  · exact absurd (beqList_length_eq (by simpa [beq] using hb)) h
+
+/-- products of different arity are different -/
+theorem beq_mul_arity (N : Num α) {f g : Flags} {as bs : List (Expr α)}
+    (h : as.length ≠ bs.length) : beq N (.mul f as) (.mul g bs) = false := by
+  cases hb : beq N (.mul f as) (.mul g bs)
+  · rfl
+  · exact absurd (beqList_length_eq (by simpa [beq] using hb)) h
+
+/-- argument order matters: `a - b` equals `b - a` only if `a` equals `b` (both ways round) -/
+theorem beq_minus_swap (N : Num α) (f g : Flags) (a b : Expr α) :
+    beq N (.minus f a b) (.minus g b a) = (beq N a b && beq N b a) := by
+  simp [beq]
+
+/-- … and so for the two arguments of a sum (products alike) -/
+theorem beq_add_swap (N : Num α) (f g : Flags) (a b : Expr α) :
+    beq N (.add f [a, b]) (.add g [b, a]) = (beq N a b && beq N b a) := by
+  simp [beq, beqList]
+
+theorem beq_mul_swap (N : Num α) (f g : Flags) (a b : Expr α) :
+    beq N (.mul f [a, b]) (.mul g [b, a]) = (beq N a b && beq N b a) := by
+  simp [beq, beqList]
+
+/-! ### hashing -/
+
+/-- **C12 (hash).**  Equal expressions have equal hashes: the keys handed to `hash` agree up to `==`
+on the numbers in them. -/
+theorem hashKey_respects_beq {N : Num α} (h : EqLaws N) {a b : Expr α} (hab : beq N a b = true) :
+    HKey.same N (hashKey a) (hashKey b) = true :=
+  hashKey_same_of_beq h hab
+
+/-! ### points -/
+
+/-- **C12 (points).**  Points (with pairwise distinct names, as keyword arguments are) are equal
+exactly when they have the same number of coordinates and answer every lookup alike: both miss, or
+both hit with numerically equal values — in any order. -/
+theorem pointBeq_iff (N : Num α) (p q : Point α) (hp : (p.map Prod.fst).Nodup) :
+    pointBeq N p q = true ↔ p.length = q.length ∧ ∀ x, LookupAgree N p q x :=
+  pointBeq_iff_lookup N q hp
+
+/-- equal points have the same coordinate names, up to order -/
+theorem pointBeq_same_names {N : Num α} {p q : Point α} (hp : (p.map Prod.fst).Nodup)
+    (h : pointBeq N p q = true) : (p.map Prod.fst).Perm (q.map Prod.fst) :=
+  pointBeq_names_perm hp h
+
+theorem pointBeq_refl {N : Num α} (h : EqLaws N) {p : Point α} (hp : (p.map Prod.fst).Nodup) :
+    pointBeq N p p = true := pointBeq_refl' h hp
+
+/-- (distinctness of the names of `q` follows) -/
+theorem pointBeq_symm {N : Num α} (h : EqLaws N) {p q : Point α} (hp : (p.map Prod.fst).Nodup)
+    (hpq : pointBeq N p q = true) : pointBeq N q p = true := pointBeq_symm' h hp hpq
+
+theorem pointBeq_trans {N : Num α} (h : EqLaws N) {p q r : Point α}
+    (hpq : pointBeq N p q = true) (hqr : pointBeq N q r = true) : pointBeq N p r = true :=
+  pointBeq_trans' h hpq hqr
+
+/-- the order of the coordinates is irrelevant -/
+theorem pointBeq_perm {N : Num α} (h : EqLaws N) {p p' : Point α} (hp : (p.map Prod.fst).Nodup)
+    (hperm : p.Perm p') : pointBeq N p p' = true := pointBeq_of_perm h hp hperm
+
+/-! ### non-vacuity and concrete discrimination -/
+
+section examples
+open Classical
+
+/-- `beq_iff_structEq` relates objects that are not literally the same: flags differ, and the
+constants are `2` and `1 + 1`. -/
+example : beq realNum (mkAdd [mkConst 2, mkNPow (mkVar "x") 3])
+    (.add { red := true, id := 7 } [.const { failed := true } (1 + 1), mkNPow (mkVar "x") 3]) = true := by
+  apply (beq_iff_structEq eqLaws_real _ _).mpr
+  exact .add (.cons (.const (by norm_num [realNum_eq])) (.cons (.npow .var) .nil))
+
+/-- "2 and 2.0 agree": distinct elements of the carrier that are `==` give equal expressions -/
+example : (⟨2, true⟩ : QE) ≠ ⟨2, false⟩ ∧
+    beq qeNum (mkLog (mkConst ⟨2, true⟩) ⟨3, false⟩) (mkLog (mkConst ⟨2, false⟩) ⟨3, true⟩) = true ∧
+    HKey.same qeNum (hashKey (mkLog (mkConst (⟨2, true⟩ : QE)) ⟨3, false⟩))
+      (hashKey (mkLog (mkConst (⟨2, false⟩ : QE)) ⟨3, true⟩)) = true := by
+  have hb : beq qeNum (mkLog (mkConst ⟨2, true⟩) ⟨3, false⟩)
+      (mkLog (mkConst ⟨2, false⟩) ⟨3, true⟩) = true := by
+    simp [beq, qeNum_eq]
+  exact ⟨by simp, hb, hashKey_respects_beq eqLaws_rational hb⟩
+
+/-- argument order, arity, `n`, base, name, value and constructor are all told apart -/
+example :
+    beq realNum (mkAdd [mkVar "x", mkVar "y"]) (mkAdd [mkVar "y", mkVar "x"]) = false ∧
+    beq realNum (mkMinus (mkVar "x") (mkVar "y")) (mkMinus (mkVar "y") (mkVar "x")) = false ∧
+    beq realNum (mkAdd [mkVar "x"]) (mkAdd [mkVar "x", mkVar "x"]) = false ∧
+    beq realNum (mkNPow (mkVar "x") 2) (mkNPow (mkVar "x") 3) = false ∧
+    beq realNum (mkExp (mkVar "x") 2) (mkExp (mkVar "x") 3) = false ∧
+    beq realNum (mkConst 2) (mkConst 3) = false ∧
+    beq realNum (mkAdd [mkVar "x"]) (mkMul [mkVar "x"]) = false ∧
+    beq realNum (mkCos (mkVar "x")) (mkSin (mkVar "x")) = false := by
+  refine ⟨?_, ?_, ?_, ?_, ?_, ?_, ?_, ?_⟩ <;> simp [beq, beqList]
+
+/-- points: order is irrelevant; a different value, name or number of coordinates is not -/
+example :
+    pointBeq realNum [("x", 1), ("y", 2)] [("y", 2), ("x", 1)] = true ∧
+    pointBeq realNum [("x", 1), ("y", 2)] [("y", 1), ("x", 2)] = false ∧
+    pointBeq realNum [("x", 1), ("y", 2)] [("x", 1), ("z", 2)] = false ∧
+    pointBeq realNum [("x", 1)] [("x", 1), ("y", 2)] = false := by
+  refine ⟨?_, ?_, ?_, ?_⟩
+  · exact pointBeq_perm eqLaws_real (by simp) (List.Perm.swap _ _ _)
+  all_goals simp [pointBeq, Point.get?]
+
+/-- the hypotheses of `pointBeq_symm`/`pointBeq_iff` are met by a non-trivial pair -/
+example : (([("x", 1), ("y", 2)] : Point ℝ).map Prod.fst).Nodup ∧
+    pointBeq realNum [("x", 1), ("y", 2)] [("y", 1 + 1), ("x", 1)] = true := by
+  constructor
+  · simp
+  · have h2 : (1 : ℝ) + 1 = 2 := by norm_num
+    simp [pointBeq, Point.get?, h2]
+
+/-- distinctness of names is needed for reflexivity: a repeated name is looked up at its first
+occurrence only -/
+example : pointBeq realNum [("x", 1), ("x", 2)] [("x", 1), ("x", 2)] = false := by
+  simp [pointBeq, Point.get?]
+
+end examples
+
 end Smooth
